@@ -209,6 +209,23 @@ class FD:
     x: int
 
 
+@attr.s
+class FP:                      # private name: the alias differs from the name
+    _x = attr.ib()
+    y = attr.ib()
+
+
+@attr.s
+class FE:                      # explicit alias
+    x = attr.ib(alias="renamed")
+
+
+@attr.s
+class FS:                      # two fields with swapped name and alias
+    a = attr.ib(alias="b")
+    b = attr.ib(alias="a")
+
+
 class Plain:
     pass
 
@@ -232,8 +249,19 @@ ATTRS = {  # id -> (Attribute object, name, sig)
     "B.x": (attr.fields(FB).x, "x", "plain"),       # == A.x (the owning class is not compared)
     "B.y": (attr.fields(FB).y, "y", "d1"),          # != A.y
     "Sub.x": (attr.fields(FSub).x, "x", "plain"),   # == A.x (`inherited` is not compared)
-    "D.x": (attr.fields(FD).x, "x", "typed"),       # != A.x (type=int, alias …)
+    "D.x": (attr.fields(FD).x, "x", "typed"),       # != A.x (type=int)
+    "P._x": (attr.fields(FP)._x, "_x", "plain"),    # name _x, alias x
+    "P.y": (attr.fields(FP).y, "y", "plain"),       # == A.y
+    "E.x": (attr.fields(FE).x, "x", "plain"),       # name x, alias renamed: != A.x
+    "S.a": (attr.fields(FS).a, "a", "plain"),       # name a, alias b
+    "S.b": (attr.fields(FS).b, "b", "plain"),       # name b, alias a
 }
+
+
+def attr_id(key):
+    obj, name, sig = ATTRS[key]
+    return {"name": name, "alias": obj.alias, "sig": sig}
+
 TYPES = {"int": int, "bool": bool, "str": str, "NoneType": type(None), "float": float, "MyInt": MyInt, "object": object,
          "FA": FA, "Plain": Plain, "type": type, "list": list, "Hostile": Hostile}
 VALUES = {  # id -> (value maker, exact class name)
@@ -242,7 +270,7 @@ VALUES = {  # id -> (value maker, exact class name)
     "object()": (lambda: object(), "object"), "Plain()": (lambda: Plain(), "Plain"), "int": (lambda: int, "type"),
     "MyStr('y')": (lambda: MyStr("y"), "MyStr"), "[1]": (lambda: [1], "list"), "Hostile()": (lambda: Hostile(), "Hostile"),
 }
-NAMES = ["x", "y", "z", "", "X"]
+NAMES = ["x", "y", "z", "", "X", "_x", "renamed", "a", "b"]      # field names AND aliases
 JUNK = {"1": lambda: 1, "None": lambda: None, "list": lambda: ["x"], "1.5": lambda: 1.5, "tuple": lambda: ("x",),
         "bytes": lambda: b"x", "dict": lambda: {"x": 1}}
 
@@ -250,7 +278,7 @@ JUNK = {"1": lambda: 1, "None": lambda: None, "list": lambda: ["x"], "1.5": lamb
 def what_pool():
     out = [({"type": {"t": t}}, ("type", t)) for t in TYPES]
     out += [({"name": {"s": n}}, ("name", n)) for n in NAMES]
-    out += [({"attr": {"a": {"name": v[1], "sig": v[2]}}}, ("attr", k)) for k, v in ATTRS.items()]
+    out += [({"attr": {"a": attr_id(k)}}, ("attr", k)) for k in ATTRS]
     out += [("junk", ("junk", k)) for k in JUNK]
     return out
 
@@ -262,7 +290,7 @@ def f_case(items, queries, fresh=False):
     """queries: [(attr_id, val_id)] asked of ONE include object and ONE exclude object, in this order
     (fresh=True: a new filter per question -- harness-only variation the model is independent of)"""
     return {"kind": "filter", "what": [i[0] for i in items],
-            "queries": [{"attr": {"name": ATTRS[a][1], "sig": ATTRS[a][2]}, "valType": VALUES[v][1]} for a, v in queries],
+            "queries": [{"attr": attr_id(a), "valType": VALUES[v][1]} for a, v in queries],
             "py": {"what": [list(i[1]) for i in items], "queries": [[a, v] for a, v in queries], "fresh": fresh}}
 
 
@@ -299,7 +327,7 @@ def f_observe(case):
     return {"inc": inc, "exc": exc}
 
 
-NAME_GROUPS = [["A.x", "B.x", "Sub.x", "D.x"], ["A.y", "B.y"]]
+NAME_GROUPS = [["A.x", "B.x", "Sub.x", "D.x", "E.x", "P._x"], ["A.y", "B.y", "P.y"], ["S.a", "S.b", "E.x", "P._x"]]
 
 
 def rand_history(rng, attr_ids, val_ids):
@@ -366,7 +394,7 @@ RELS = {
 SLOTS = ["eq", "lt", "le", "gt", "ge"]
 OPS = ["eq", "ne", "lt", "le", "gt", "ge"]
 OPFN = {"eq": operator.eq, "ne": operator.ne, "lt": operator.lt, "le": operator.le, "gt": operator.gt, "ge": operator.ge}
-RHS = ["same", "sub", "otherType", "foreign"]
+RHS = ["same", "sub", "otherType", "foreign", "identical"]
 
 
 class UExc(Exception):
@@ -454,7 +482,7 @@ def c_observe(case):
     a, b, rhs = case["a"], case["b"], case["rhs"]
     flip = cfg.get("flip")
     xa, yb = a, b
-    if rhs == "same":
+    if rhs in ("same", "identical"):
         if flip:
             xa, yb = MyInt(a), MyInt(b)
     elif rhs == "sub":
@@ -466,8 +494,8 @@ def c_observe(case):
         if flip:
             xa, yb = float(a), b
     x = cls(xa)
-    y = object() if rhs == "foreign" else cls(yb)
-    payloads = [xa] if rhs == "foreign" else [xa, yb]
+    y = object() if rhs == "foreign" else x if rhs == "identical" else cls(yb)     # identical: the SAME wrapper object
+    payloads = [xa] if rhs in ("foreign", "identical") else [xa, yb]
 
     def rv(v):
         # the payload objects themselves must reach the function (no copies, no conversions)
@@ -491,6 +519,8 @@ def c_observe(case):
 
 
 def c_case(fns, rst, name, a, b, rhs, rng, partial=False):
+    if rhs == "identical":
+        b = a
     return {"kind": "cmp", **{s: fns.get(s) for s in SLOTS}, "requireSameType": rst, "className": name,
             "a": a, "b": b, "rhs": rhs, "partialFns": partial,
             "cfg": {"flip": rng.random() < 0.3, "omit_rst": rng.random() < 0.5, "omit_name": rng.random() < 0.5,
@@ -510,10 +540,16 @@ def c_gen(tier, rng):
             for rhs in RHS:
                 for a, b in PAIRS[:3] if tier == "quick" else PAIRS:
                     yield c_case(fns, rst, rng.choice(names), a, b, rhs, rng)
-                    if rhs != "same" and (a, b) != (1, 1):
+                    if rhs not in ("same", "identical") and (a, b) != (1, 1):
                         yield c_case(fns, rst, rng.choice(names), a, b, rhs, rng, partial=True)
-    # inconsistent functions: each supplied slot computes an arbitrary relation (or NotImplemented, or raises)
     rels = list(RELS) + ["boom"]
+    # the diagonal: the same wrapper object on both sides, with an eq function that need not be reflexive
+    for eqrel in rels:
+        for ords in ((), ("lt",), ("le",), ("gt",), ("ge",), ("lt", "le", "gt", "ge")):
+            for rst in (True, False):
+                fns = dict({o: o for o in ords}, eq=eqrel)
+                yield c_case(fns, rst, "Comparable", rng.choice([0, 1, 2]), 0, "identical", rng)
+    # inconsistent functions: each supplied slot computes an arbitrary relation (or NotImplemented, or raises)
     n = 6000 if tier == "quick" else 150000
     for _ in range(n):
         mask = rng.randrange(32)
@@ -524,7 +560,7 @@ def c_gen(tier, rng):
             if mask >> i & 1:
                 fns[s] = s if rng.random() < 0.5 else rng.choice(rels)
         a, b = rng.choice(PAIRS)
-        yield c_case(fns, rng.random() < 0.6, rng.choice(names), a, b, rng.choice(RHS + ["same", "sub"]), rng,
+        yield c_case(fns, rng.random() < 0.6, rng.choice(names), a, b, rng.choice(RHS + ["same", "sub", "identical"]), rng,
                      partial=rng.random() < 0.3)
     if tier == "thorough":
         # one deviating slot at a time, exhaustively
@@ -560,9 +596,9 @@ def c_shrink(case):
         yield dict(case, partialFns=False)
     if case["className"] != "Comparable":
         yield dict(case, className="Comparable")
-    if case["rhs"] != "same":
+    if case["rhs"] not in ("same", "identical"):
         yield dict(case, rhs="same")
-    if (case["a"], case["b"]) != (0, 1):
+    if (case["a"], case["b"]) != (0, 1) and case["rhs"] != "identical":
         yield dict(case, a=0, b=1)
     if case.get("cfg", {}).get("flip"):
         yield dict(case, cfg=dict(case["cfg"], flip=False))
@@ -572,6 +608,7 @@ def c_neighbours(case, rng):
     for rhs in RHS:
         for rst in (True, False):
             for a, b in PAIRS[:3]:
-                yield dict(case, rhs=rhs, requireSameType=rst, a=a, b=b)
-                yield dict(case, rhs=rhs, requireSameType=rst, a=a, b=b, partialFns=not case.get("partialFns"))
+                b2 = a if rhs == "identical" else b
+                yield dict(case, rhs=rhs, requireSameType=rst, a=a, b=b2)
+                yield dict(case, rhs=rhs, requireSameType=rst, a=a, b=b2, partialFns=not case.get("partialFns"))
     yield from c_shrink(case)
